@@ -285,8 +285,9 @@ func genC11(t *rapid.T) c11Case {
 	case 0: // absolute file location
 		c.Graph = g
 	case 1: // below the working directory: relative spellings possible
-		c.Graph = relocate(g, "file://"+wd+"/w/")
-		c.Cwd = wd
+		// (the working directory itself varies from case to case: it must be looked up when it is needed)
+		c.Cwd = wd + []string{"", "/c11-a", "/c11-b/deeper"}[gen.Uniform(t, "cwd", 3)]
+		c.Graph = relocate(g, "file://"+c.Cwd+"/w/")
 	case 2:
 		c.Graph = relocate(g, "http://r.example/w/")
 		isFile = false
